@@ -279,6 +279,85 @@ fn run_input(report: &Report, rt: &Arc<tokio::runtime::Runtime>, provider: Optio
     judge(report, &app, "input_kind", json!({"input": input, "provider_configured": provider.is_some()}), &format!("input:{label}"));
 }
 
+/// Per-request provider overrides (POST /threads/{id}/messages {"openresponses": {...}}): whatever
+/// the server answers, every message in the log has its run and every run ends.
+fn run_override(report: &Report, rt: &Arc<tokio::runtime::Runtime>, provider: Option<(&Provider, &str)>, over: &Value, label: &str) {
+    let cfg = provider.map(|(p, key)| {
+        p.script(key, vec![Resp::Sse { chunks: vec![sse(&[json!({"type": "response.output_text.delta", "delta": "ok"}), Value::String("[DONE]".into())])], abort: false }], true);
+        config(p.endpoint(key))
+    });
+    let app = App::new(rt.clone(), cfg);
+    let thread = app.ensure_thread();
+    let _ = app.post_and_wait(&thread, "first", None, Duration::from_secs(8));
+    let (status, b) = app.request("POST", &format!("/threads/{thread}/messages"), Some(json!({"content": "second", "openresponses": over})));
+    if status == 202 {
+        if let Some(mid) = serde_json::from_slice::<Value>(&b).ok().and_then(|v| v["message_id"].as_str().map(|s| s.to_string())) {
+            let _ = app.wait_run_ended(&mid, Duration::from_secs(8));
+        }
+    } else {
+        // refused: give anything that was started anyway the time to finish
+        let mut len = app.log_events().len();
+        let mut quiet = 0;
+        let t0 = std::time::Instant::now();
+        while quiet < 4 && t0.elapsed() < Duration::from_secs(5) {
+            std::thread::sleep(Duration::from_millis(15));
+            let now = app.log_events().len();
+            quiet = if now == len { quiet + 1 } else { 0 };
+            len = now;
+        }
+    }
+    let _ = app.post_and_wait(&thread, "third", None, Duration::from_secs(8));
+    report.eval(Some(&("override", label, provider.is_some())));
+    report.count("override_cases", 1);
+    judge(report, &app, "provider_override", json!({"override": over, "provider_configured": provider.is_some(), "http_status": status}), &format!("override:{label}"));
+}
+
+/// Background summarizer jobs through the HTTP routes, with a healthy and with a blocked artifact
+/// store (the job fails after it was spawned): a job is ended at most once, whatever it does.
+fn run_jobs(report: &Report, rt: &Arc<tokio::runtime::Runtime>, route: &str, block: u8, twice: bool) {
+    let app = App::new(rt.clone(), None);
+    let thread = app.ensure_thread();
+    for k in 0..4 {
+        let _ = app.post_and_wait(&thread, &format!("m{k}"), None, Duration::from_secs(8));
+    }
+    match block {
+        1 => {
+            let _ = std::fs::remove_dir_all(app.root.join(".rip/artifacts"));
+            let _ = std::fs::create_dir_all(app.root.join(".rip"));
+            let _ = std::fs::write(app.root.join(".rip/artifacts"), "not a directory");
+        }
+        2 => {
+            let _ = std::fs::remove_dir_all(app.root.join(".rip/artifacts/blobs"));
+            let _ = std::fs::create_dir_all(app.root.join(".rip/artifacts"));
+            let _ = std::fs::write(app.root.join(".rip/artifacts/blobs"), "not a directory");
+        }
+        _ => {}
+    }
+    let body = json!({"stride_messages": 2, "execute": true, "actor_id": "u", "origin": "o"});
+    let mut statuses = Vec::new();
+    for _ in 0..(if twice { 2 } else { 1 }) {
+        let (st, _) = app.request("POST", &format!("/threads/{thread}/{route}"), Some(body.clone()));
+        statuses.push(st);
+    }
+    // the job runs in the background: wait until the log has been quiet for a while
+    let mut len = app.log_events().len();
+    let mut quiet = 0;
+    let t0 = std::time::Instant::now();
+    while quiet < 6 && t0.elapsed() < Duration::from_secs(10) {
+        std::thread::sleep(Duration::from_millis(20));
+        let now = app.log_events().len();
+        quiet = if now == len { quiet + 1 } else { 0 };
+        len = now;
+    }
+    report.eval(Some(&("jobs", route, block, twice)));
+    report.count("job_cases", 1);
+    let ev = app.log_events();
+    report.count("job_spawned_frames", ev.iter().filter(|e| matches!(e.kind, rip_kernel::EventKind::ContinuityJobSpawned { .. })).count() as u64);
+    report.count("job_ended_frames", ev.iter().filter(|e| matches!(e.kind, rip_kernel::EventKind::ContinuityJobEnded { .. })).count() as u64);
+    let store_state = ["healthy", "artifacts_is_a_file", "blobs_is_a_file"][block as usize];
+    judge(report, &app, "background_job", json!({"route": route, "artifact_store": store_state, "requests": statuses.len(), "http_statuses": statuses}), &format!("job:{route}"));
+}
+
 fn run_compile_failure(report: &Report, rt: &Arc<tokio::runtime::Runtime>, provider: &Provider, key: &str, mode: u8) {
     provider.script(key, vec![Resp::Sse { chunks: vec![sse(&[json!({"type": "response.output_text.delta", "delta": "ok"}), Value::String("[DONE]".into())])], abort: false }], true);
     let app = App::new(rt.clone(), Some(config(provider.endpoint(key))));
@@ -287,7 +366,10 @@ fn run_compile_failure(report: &Report, rt: &Arc<tokio::runtime::Runtime>, provi
     match mode {
         0 => {
             // a checkpoint whose summary artifact disappears
-            let (_s, _b) = app.request("POST", &format!("/threads/{thread}/compaction/checkpoint"), Some(json!({"summary_markdown": "s", "stride_messages": 1})));
+            let (st, _b) = app.request("POST", &format!("/threads/{thread}/compaction-checkpoint"), Some(json!({"summary_markdown": "s", "stride_messages": 1})));
+            if st >= 300 {
+                crate::common::machinery_failure(&format!("c07.compile_failure: the checkpoint request answered {st}"));
+            }
             let _ = std::fs::remove_dir_all(app.root.join(".rip/artifacts/blobs"));
             let _ = std::fs::create_dir_all(app.root.join(".rip/artifacts/blobs"));
         }
@@ -403,6 +485,25 @@ pub fn run(opts: Opts) -> i32 {
             run_input(&report, &rt, None, input, label);
             run_input(&report, &rt, Some((&provider, &format!("in{n}/v1/responses"))), input, label);
         });
+        let overrides: Vec<(Value, &str)> = vec![
+            (json!({"endpoint": "responses.internal/v1/responses"}), "endpoint_not_a_url"),
+            (json!({"endpoint": ""}), "endpoint_empty"),
+            (json!({"endpoint": "http://127.0.0.1:1/v1/responses"}), "endpoint_refused"),
+            (json!({"endpoint": "ftp://127.0.0.1/v1"}), "endpoint_other_scheme"),
+            (json!({"endpoint": "http://[::1"}), "endpoint_malformed"),
+            (json!({"model": ""}), "model_empty"),
+            (json!({"model": "m\u{0}\u{e9}"}), "model_odd"),
+            (json!({"stateless_history": true, "parallel_tool_calls": true}), "flags"),
+            (json!({"followup_user_message": ""}), "followup_empty"),
+            (json!({}), "empty"),
+        ];
+        overrides.par_iter().for_each(|(over, label)| {
+            let n = counter.fetch_add(1, std::sync::atomic::Ordering::SeqCst);
+            run_override(&report, &rt, None, over, label);
+            run_override(&report, &rt, Some((&provider, &format!("ov{n}/v1/responses"))), over, label);
+        });
+        let job_cases: Vec<(&str, u8, bool)> = ["compaction-auto", "compaction-auto-schedule"].iter().flat_map(|r| (0..3u8).flat_map(move |b| [(*r, b, false), (*r, b, true)])).collect();
+        job_cases.par_iter().for_each(|(route, block, twice)| run_jobs(&report, &rt, route, *block, *twice));
         for mode in 0..2u8 {
             let n = counter.fetch_add(1, std::sync::atomic::Ordering::SeqCst);
             run_compile_failure(&report, &rt, &provider, &format!("cf{n}/v1/responses"), mode);
